@@ -298,13 +298,16 @@ theorem C08_symindex_accepted_arrays (bytes : List UInt8) (ix : BP.Index)
 
 /-- **Clause (f), n records, any index.** A `.sym` text with ARBITRARY contents served together with a stored
 `.symindex` with ARBITRARY contents (valid, built from another file, corrupted, unsorted), then any sequence
-of lookups on the one symbol map (memo tables included): whenever the index is accepted, every lookup returns
+of lookups on the one symbol map (memo tables included). Whichever index `make_index_storage` settles on — the
+stored one when it parses and its MODULE line is the beginning of the text (`BP.storedMatches`, fix 3f61c23c),
+otherwise the one built from the text (C10's `BP.mapStored`) —, whenever a map results, every lookup returns
 a result or nothing — never the out-of-range `symbol_addresses[index]` / `symbol_entries[index]` — and every
 result satisfies what the API layers compute with it without checking: `symbol.address ≤ address`
 (symbolicate/mod.rs:231 `frame.address - symbol_address`) and a non-empty frame list (:237 `split_last().expect`).
-`BPC.serve` is compared value-for-value with the real code by the `bpmap` operation. -/
-theorem C08_served_lookups_total (text idx : List UInt8) (addrs : List Nat) (ls : List BP.Look)
-    (h : BPC.serve text idx addrs = .looks ls) :
+`BPC.serve` is compared value-for-value with the real code by the `bpmap` operation; `pick` is C10's tie-break
+oracle of the self-built index (any). -/
+theorem C08_served_lookups_total (pick : BP.Pick) (text idx : List UInt8) (addrs : List Nat) (ls : List BP.Look)
+    (h : BPC.serve pick text idx addrs = .looks ls) :
     ls.length = addrs.length ∧
     ∀ (k a : Nat), addrs[k]? = some a →
       ∃ lk : BP.Look, ls[k]? = some lk ∧ lk ≠ BP.Look.panic ∧
@@ -312,19 +315,19 @@ theorem C08_served_lookups_total (text idx : List UInt8) (addrs : List Nat) (ls 
   unfold BPC.serve at h
   split at h
   · cases h
-  · rename_i ix hix
-    split at h
-    · cases h
-    · cases h
-      exact BPC.lookupSeq_spec text ix _ addrs (BPC.parseSymindex_lengths idx ix hix)
+  · cases h
+  · cases h
+  · rename_i ix hm
+    cases h
+    exact BPC.lookupSeq_spec text ix _ addrs (BPC.mapStored_ok_lengths pick text _ ix hm)
 
 /-- … and the same with an `iter_symbols()` pass (symbol_map.rs:244-272, sharing the memo tables) between two
 runs of lookups: the pass never indexes `symbol_entries` out of range, and the lookups before and after it
 return a result or nothing with the same two guarantees. (`BPC.serveSession`, compared value-for-value by the
 `bpmap … iter …` operation.) -/
-theorem C08_served_session_total (text idx : List UInt8) (pre post : List Nat) (ls1 ls2 : List BP.Look)
-    (names : Option (List (Nat × List UInt8)))
-    (h : BPC.serveSession text idx pre post = .session ls1 names ls2) :
+theorem C08_served_session_total (pick : BP.Pick) (text idx : List UInt8) (pre post : List Nat)
+    (ls1 ls2 : List BP.Look) (names : Option (List (Nat × List UInt8)))
+    (h : BPC.serveSession pick text idx pre post = .session ls1 names ls2) :
     names ≠ none ∧
     (∀ (k a : Nat), pre[k]? = some a →
       ∃ lk : BP.Look, ls1[k]? = some lk ∧ lk ≠ BP.Look.panic ∧
@@ -335,20 +338,31 @@ theorem C08_served_session_total (text idx : List UInt8) (pre post : List Nat) (
   unfold BPC.serveSession at h
   split at h
   · cases h
-  · rename_i ix hix
-    have hl := BPC.parseSymindex_lengths idx ix hix
+  · cases h
+  · cases h
+  · rename_i ix hm
+    have hl := BPC.mapStored_ok_lengths pick text _ ix hm
+    simp only at h
+    have hsome := BPC.iterSymbolsC_isSome text ix (BPC.lookupSeqC text ix BPC.Cache.empty pre).2 ix.addrs 0
+      (by omega)
     split at h
-    · cases h
-    · simp only at h
-      have hsome := BPC.iterSymbolsC_isSome text ix (BPC.lookupSeqC text ix BPC.Cache.empty pre).2 ix.addrs 0
-        (by omega)
-      split at h
-      · rename_i hnone
-        rw [hnone] at hsome
-        cases hsome
-      · rename_i it hit
-        cases h
-        exact ⟨by simp, (BPC.lookupSeq_spec text ix _ pre hl).2, (BPC.lookupSeq_spec text ix _ post hl).2⟩
+    · rename_i hnone
+      rw [hnone] at hsome
+      cases hsome
+    · rename_i it hit
+      cases h
+      exact ⟨by simp, (BPC.lookupSeq_spec text ix _ pre hl).2, (BPC.lookupSeq_spec text ix _ post hl).2⟩
+
+/-- **A stored index of another module is never looked into.** When the stored `.symindex` parses but its MODULE
+line is not the beginning of the served text (C10's `BP.storedMatches`), the served map is the map of the text
+alone: the answers are those of serving the same text with any other unusable index — in particular the
+foreign index's offsets are never applied to this text. -/
+theorem C08_served_foreign_index_ignored (pick : BP.Pick) (text idx idx' : List UInt8) (addrs : List Nat)
+    (ix : BP.Index) (hp : BP.parseSymindex idx = some ix) (hm : BP.storedMatches text ix = false)
+    (hp' : BP.parseSymindex idx' = none) :
+    BPC.serve pick text idx addrs = BPC.serve pick text idx' addrs := by
+  unfold BPC.serve BP.mapStored
+  simp [hp, hm, hp']
 
 /-- **When the memo tables matter.** `BreakpadSymbolMapCache` memoises parsed PUBLIC / FUNC records under their
 file offset alone. If, among the symbol entries of the index, kind and offset determine the length (so for
@@ -376,38 +390,18 @@ theorem C08_breakpad_map_total (pick : BP.Pick) (text : List UInt8) (stored : Op
         ∀ r, BP.lookup text ix a = .found r → r.symAddr ≤ a ∧ r.frames ≠ some []) := by
   constructor
   · intro h
-    unfold BP.mapStored at h
-    split at h
-    · cases h
-    · split at h
-      · cases h
-      · exact C10_no_panic pick [text] (C10_self_map_no_unwrap_panic pick text hlen h)
-  · intro ix a h
-    have hl : ix.addrs.length = ix.entries.length := by
-      have hself : BP.mapSelf pick text = .ok ix → ix.addrs.length = ix.entries.length := by
-        intro hs
-        unfold BP.mapSelf at hs
-        split at hs
-        · cases hs
-        · split at hs
-          · cases hs
-          · cases hs
-          · split at hs
-            · cases hs
-            · rename_i bytes _ ix' hp
-              cases hs
-              exact BPC.parseSymindex_lengths _ _ hp
+    have hself : BP.mapSelf pick text = .panic :=  by
       unfold BP.mapStored at h
       split at h
       · cases h
       · split at h
-        · rename_i ix' hst
-          cases h
-          cases stored with
-          | none => simp at hst
-          | some b => exact BPC.parseSymindex_lengths b _ (by simpa using hst)
-        · exact hself h
-    exact BPC.lookup_spec text ix a hl
+        · split at h
+          · cases h
+          · exact h
+        · exact h
+    exact C10_no_panic pick [text] (C10_self_map_no_unwrap_panic pick text hlen hself)
+  · intro ix a h
+    exact BPC.lookup_spec text ix a (BPC.mapStored_ok_lengths pick text stored ix h)
 
 /-- a Breakpad lookup result as the symbolication layer sees it (`SyncAddressInfo`); `nm` / `fr` convert
 names and frames (any functions: demangling and path mapping do not matter here) -/
@@ -478,27 +472,7 @@ theorem C08_symbolicate_over_served_files_total (pick : BP.Pick)
     split at hl
     · rename_i ix hm
       cases hl
-      have hlen : ix.addrs.length = ix.entries.length := by
-        unfold BP.mapStored at hm
-        split at hm
-        · cases hm
-        · split at hm
-          · rename_i ix' hst
-            cases hm
-            cases stored with
-            | none => simp at hst
-            | some b => exact BPC.parseSymindex_lengths b _ (by simpa using hst)
-          · unfold BP.mapSelf at hm
-            split at hm
-            · cases hm
-            · split at hm
-              · cases hm
-              · cases hm
-              · split at hm
-                · cases hm
-                · rename_i bytes _ ix' hp
-                  cases hm
-                  exact BPC.parseSymindex_lengths _ _ hp
+      have hlen : ix.addrs.length = ix.entries.length := BPC.mapStored_ok_lengths pick text stored ix hm
       exact ⟨text, ix, hlen, fun a => rfl⟩
     · cases hl
 
